@@ -265,6 +265,95 @@ def run_urdf_history(hid, seed):
     return ev
 
 
+def life_histories(res, tier, rng):
+    """behaviours of the life-cycle explorer BvhLife.tla: exhaustive check of the library design, simulated behaviours of it, and
+    the histories TLC finds against the lazy-rebuild design (which must exist)"""
+    import re
+    jobs = [dict(spec_dir="c06", module="BvhLife", cfg="BvhLife.cfg", workers=4, heap="2g", tag="bl_main"),
+            dict(spec_dir="c06", module="BvhLife", cfg="BvhLife_sim.cfg", workers=1, heap="1g", tag="bl_sim",
+                 simulate=f"num={40 if tier == 'quick' else 1000}", depth=7, extra=("-seed", str(rng.randrange(1 << 30)))),
+            dict(spec_dir="c06", module="BvhLife", cfg="BvhLife_lazy.cfg", workers=2, heap="1g", tag="bl_lazy")]
+    main, sim, lazy = tlc.run_many(jobs)
+    res.add_tlc(main); res.add_tlc(lazy)
+    if main.invariant_violated:
+        res.violation("mc:BvhLife", "ModelInvariant", f"TLC: {main.invariant_violated} violated on the BVH life-cycle model", {"tlc_tail": main.out[-3000:]})
+    elif not main.ok:
+        res.machinery("TLC BvhLife failed:\n" + main.out[-2000:])
+
+    def parse(r, tag):
+        hs = {}
+        for m in re.finditer(r'<<"%s",\s*"((?:[^"\\]|\\.)*)">>' % tag, r.out, re.S):
+            js = re.sub(r"\s*\n\s*", "", m.group(1)).encode().decode("unicode_escape")
+            hs[js] = json.loads(js)
+        return list(hs.values())
+    sims, wit = parse(sim, "HIST"), parse(lazy, "WITNESS")
+    if not sims:
+        res.machinery("TLC simulation of BvhLife produced no behaviours:\n" + sim.out[-1500:])
+    if not wit:
+        res.machinery("the lazy-rebuild design has no witness history in BvhLife (vacuous model)")
+    res.coverage["bvhlife_behaviours"] = len(sims)
+    res.coverage["bvhlife_witnesses"] = len(wit)
+    rng.shuffle(wit)
+    return sims + wit[:(12 if tier == "quick" else 56)]
+
+
+def run_life(args):
+    """replay one BvhLife behaviour on two real hierarchies of two lattice boxes each; every query is judged by BvhTrace"""
+    hid, seed, hist = args
+    env.setup()
+    from pytransform3d.transform_manager import TransformManager
+    from distance3d.broad_phase import BoundingVolumeHierarchy
+    from distance3d import colliders as C, gjk
+    rng = random.Random(seed)
+    hs, ev = {}, []
+    for h in ("r", "o"):
+        tm = TransformManager()
+        bvh = BoundingVolumeHierarchy(tm, "base")
+        for c in ("c1", "c2"):
+            T = np.eye(4); T[:3, 3] = [rng.randint(-3, 3) for _ in range(3)]
+            tm.add_transform(c, "base", T)
+            bvh.add_collider(c, C.Box(tm.get_transform(c, "origin"), np.array([2.0 * rng.randint(1, 2) for _ in range(3)])))
+        hs[h] = (tm, bvh)
+
+    def state(h, sid):
+        tm, bvh = hs[h]
+        frames = ["c1", "c2"]
+        box = {f: lattice_box(bvh.colliders_[f].aabb()) or [[0, 0]] * 3 for f in frames}
+        pt = {f: ticks(float(np.max(np.abs(np.asarray(bvh.colliders_[f].collider2origin()) - tm.get_transform(f, "origin")))), 1e-9 / 8) for f in frames}
+        hit = {f: [] for f in frames}
+        if gjk.gjk_intersection(bvh.colliders_["c1"], bvh.colliders_["c2"]):
+            hit = {"c1": ["c2"], "c2": ["c1"]}
+        ev.append({"ev": "robot", "id": sid + ".rb", "frames": frames, "wl": {f: [] for f in frames}, "urdf": "life"})
+        ev.append({"ev": "state", "id": sid, "box": box, "hit": hit, "poseTicks": pt, "exc": "none", "offLattice": False})
+        return box
+    ev.append({"ev": "robot", "id": hid, "frames": ["c1", "c2"], "wl": {"c1": [], "c2": []}, "urdf": "life:" + json.dumps(hist)})
+    for k, x in enumerate(hist):
+        sid = f"{hid}.{k}"
+        tm, bvh = hs[x["h"]]
+        try:
+            if x["op"] == "move":
+                T = np.eye(4); T[:3, 3] = [rng.randint(-3, 3) for _ in range(3)]
+                tm.add_transform(x["c"], "base", T)
+            elif x["op"] == "update":
+                bvh.update_collider_poses()
+            elif x["op"] == "qown":
+                box = state(x["h"], sid)
+                e = {"ev": "qself", "id": sid + ".sf", "pairs": [[a[0], b[0]] for a, b in bvh.aabb_overlapping_with_self()], "exc": "none"}
+                ev.append(e)
+                for f in ("c1", "c2"):
+                    ev.append({"ev": "qcollider", "id": f"{sid}.q{f}", "q": box[f], "whitelist": [], "exc": "none",
+                               "result": sorted(bvh.aabb_overlapping_colliders(bvh.colliders_[f]).keys())})
+            else:
+                state(x["h"], sid)
+                other = hs[x["g"]][1]
+                of = ["c1", "c2"]
+                ev.append({"ev": "qother", "id": sid + ".ob", "other": [lattice_box(other.colliders_[f].aabb(), False) for f in of], "exc": "none",
+                           "pairs": [[a[0], of.index(b[0]) + 1] for a, b in bvh.aabb_overlapping_with_other_bvh(other)]})
+        except Exception as ex:
+            ev.append({"ev": "qself", "id": sid + ".exc", "pairs": [], "exc": type(ex).__name__})
+    return ev
+
+
 def judge_events(res, per_history, name):
     from ..trace import parse_rejects
     os.makedirs(os.path.join(WORK, "traces"), exist_ok=True)
@@ -314,6 +403,12 @@ def run(tier, seed):
     jobs = [(f"h{i}", seed * 100003 + i) for i in range(160 if tier == "quick" else 4000)]
     with ProcessPoolExecutor(max_workers=16) as ex:
         events = list(ex.map(run_history, jobs, chunksize=4))
+    # life-cycle explorer BvhLife.tla: model checking, simulated behaviours and witness histories replayed on real hierarchies
+    lrng = random.Random(seed * 59 + 1)
+    lh = life_histories(res, tier, lrng)
+    with ProcessPoolExecutor(max_workers=16) as ex:
+        events += list(ex.map(run_life, [(f"L{i}", seed * 977 + i, h) for i, h in enumerate(lh)], chunksize=4))
+    jobs += [(f"L{i}", seed * 977 + i) for i in range(len(lh))]
     rejects = judge_events(res, events, "c06")
     byh = {evs[0]["id"]: evs for evs in events}
     for eid, clauses in sorted(rejects.items()):
